@@ -309,7 +309,7 @@ val backup_copy : plan -> bytes -> unit m
 
 val content_matches : plan -> role -> role -> bool m
 
-val create_md5 : plan -> unit m
+val create_md5 : plan -> role -> unit m
 
 type out = { stdout : bytes; check_fail : bool }
 
